@@ -406,6 +406,16 @@ pub fn gen(ctx: &mut Ctx) {
     e.req("files comp=none large=1");
     e.req(&format!("files comp=none large=0 {} {}", fspec(b"./rel/b", 0o644, 3, 'r', 1), fspec(b"/rel/a", 0o644, 2, 'r', 2)));
     e.req(&format!("files comp=none large=0 {} {}", fspec(b"/dup", 0o644, 3, 'r', 1), fspec(b"/dup", 0o600, 2, 'r', 2)));
+    // destinations that are different strings but EQUAL as `std::path::Path`s (doubled separators, `.` components): the builder
+    // keeps them as separate files, so each archive entry must come back under ITS header file (seed C07-7: pairing by
+    // `Path` equality hands the second file's bytes out under the first file's metadata)
+    for (a, b) in [(&b"/opt/app//conf/settings"[..], &b"/opt/app/conf/settings"[..]), (b"/opt/app/./conf/settings", b"/opt/app/conf/settings"),
+                   (b"//opt/x", b"/opt/x"), (b"/srv/d///f", b"/srv/d/f"), (b"/srv/./d/f", b"/srv//d/f")] {
+        for c in ["none", "gzip:6"] {
+            e.req(&format!("files comp={} large=0 {} {} {}", c, fspec(a, 0o644, 5, 'p', 1), fspec(b, 0o600, 9, 'r', 2), fspec(b"/opt/app/readme", 0o644, 3, 'p', 3)));
+            e.req(&format!("files comp={} large=0 {} {}", c, fspec(b, 0o644, 6, 'r', 4), fspec(a, 0o755, 2, 'p', 5)));
+        }
+    }
     // C. random file sets
     let nrand = if thorough { 1500 } else { 110 };
     for _ in 0..nrand {
